@@ -63,6 +63,12 @@ func c03Envs(r *core.Rand) []map[string]any {
 			b["ms"] = &gen.MethodStruct{Title: "Hello World"}
 		}
 		b["ta"], b["tb"] = gen.TaggedA{Name: "lamp", Price: 5, Sku: "SKU-1"}, &gen.TaggedB{Email: "ada@example.org", Full: "Ada", Sku: 7}
+		// a map whose keys differ only in case, and a divisor list with a zero in some environments only
+		b["cased"] = map[string]any{"usd": 1, "USD": 2, "Usd": 3, "uSd": 4}
+		b["divs"] = []any{5, 2, 1}
+		if k%3 == 1 {
+			b["divs"] = []any{5, 0, 1}
+		}
 		b["st"] = &gen.DataStruct{Name: "s", Items: []int{3, 1, 2}, M: map[string]any{"z": 1}}
 		out = append(out, b)
 	}
@@ -88,6 +94,8 @@ var c03Fixed = []string{
 	"{{ ms.Title }}|{{ ms.Upper }}|{{ ms.Slug }}|{{ ms.nosuch }}", "{{ ta.label }}:{{ ta.cost }}:{{ ta.Sku }}|{{ tb.label }}:{{ tb.cost }}:{{ tb.Sku }}|{{ ta.Name }}{{ tb.Email }}",
 	"{% for r in recs %}{{ r.size }}{% xcard r %}{% endfor %}{{ recs[0].size }}{% xcard nothing %}{% xcard longrecs[3] %}", "{% xcard recs.first %}{% xcard recs.last %}{{ recs.last | size }}{{ incard }}",
 	"{% cycle 'a', 'b', 'c' %}|{{ forloop.index }}", "{{ forloop.index }}{{ forloop.length }}{% for x in spare %}{% cycle 'p', 'q' %}{{ forloop.index }}{% endfor %}{{ forloop.index }}{% cycle 'g': 'x', 'y' %}",
+	"{% for d in divs %}{% cycle 'a', 'b', 'c' %}{{ 10 | divided_by: d }};{% endfor %}", "{% for kv in cased %}{{ kv[0] }}{% endfor %}|{{ cased | join: ',' }}|{{ cased | first | first }}",
+	"{% tablerow d in divs cols: 2 %}{% cycle 'g': 'p', 'q' %}{{ 10 | modulo: d }}{% endtablerow %}",
 	"{% xtwice %}{% cycle 'a', 'b', 'c' %}{% assign tw = tw | append: 'x' %}{% endxtwice %}{{ tw }}", "{% xwhen spare contains 3 %}{% xset st = nil %}{% xset recs = 1 %}{% endxwhen %}{{ st }}{{ recs }}{% xecho {{ spare | reverse | join: ',' }} %}",
 	"{{ words | join: ',' | split: ',' | sort | last }}{{ words | first | append: '!' }}", "{% case spare.size %}{% when 4 %}{% assign four = true %}{% endcase %}{{ four }}{% unless four %}U{% endunless %}",
 }
